@@ -222,7 +222,12 @@ func (m *Machine) envIntrinsic2(name string, fn *ssa.Function, args []Value) (Va
 		}
 		m.mayPanic(c.Le(n, c.IntI(n.Sort, 0)), "invalid argument to Intn")
 		e.nrand++
-		v := c.Var(fmt.Sprintf("rand_%d", e.nrand), SI64)
+		nm := fmt.Sprintf("rand_%d", e.nrand)
+		if nc, ok := n.ConstInt64(); ok && nc <= 16 {
+			// small ranges are case-split (every draw value explored), keeping float arithmetic concrete
+			return c.IntI(SI64, int64(m.chooseFree(nm, int(nc)))), true
+		}
+		v := c.Var(nm, SI64)
 		m.assertPC(c.And(c.Le(c.IntI(SI64, 0), v), c.Lt(v, c.Conv(n, SI64))))
 		return v, true
 	}
